@@ -210,3 +210,254 @@ func c02Extra(c *Ctx, r *Report) {
 	r.Check("C02-cleanup", fnName(fn), "deferred clean-up", c.pos(fn.Pos()), bad == "" && len(cleanups) > 0,
 		"echoes the error under a write deadline and closes; never reads", "the deferred clean-up reads from the connection ("+bad+"): when both stations fail (the receiver's error echo is itself a protocol error for the sender) each waits for the other to hang up - Exchange never returns on transports without deadlines, and stalls for the deadline elsewhere")
 }
+
+// c16Extra4: (a) the functions that compute the secure-login answer write no package-level
+// variable (two sessions answering at the same time must not share a scratch buffer);
+// (b) cleanString removes a line feed as well as CR and blanks: a peer that ends lines with CRLF
+// sends "\n;PQ: ..." as seen after the CR split, and the prefix tests work on the cleaned line.
+func c16Extra4(c *Ctx, r *Report) {
+	const pkg = "fbb"
+	r.Rule("C16-shared", 1, "the response computation shares no package-level scratch state")
+	var entries []*ssa.Function
+	for _, n := range []string{"secureLoginResponse", "(*Session).sendHandshake"} {
+		if fn := c.Func(pkg, n); fn != nil {
+			entries = append(entries, fn)
+		}
+	}
+	if len(entries) == 0 {
+		r.Fail("C16-shared", "anchors secureLoginResponse/sendHandshake not found")
+	} else {
+		reach := c.reach(entries, func(fn *ssa.Function) bool { return pkgRel(fn) == pkg })
+		bad := ""
+		var rootGlobal func(v ssa.Value, d int) *ssa.Global
+		rootGlobal = func(v ssa.Value, d int) *ssa.Global {
+			if d > 6 {
+				return nil
+			}
+			switch x := v.(type) {
+			case *ssa.Global:
+				return x
+			case *ssa.FieldAddr:
+				return rootGlobal(x.X, d+1)
+			case *ssa.IndexAddr:
+				return rootGlobal(x.X, d+1)
+			}
+			return nil
+		}
+		for fn := range reach {
+			if fn.Name() == "init" {
+				continue
+			}
+			eachInstr(fn, func(_ *ssa.BasicBlock, _ int, in ssa.Instruction) {
+				if st, ok := in.(*ssa.Store); ok {
+					if g := rootGlobal(st.Addr, 0); g != nil && g.Pkg != nil && relOf(g.Pkg.Pkg.Path()) == pkg {
+						bad = g.Name() + " at " + c.pos(st.Pos())
+					}
+				}
+			})
+		}
+		r.Check("C16-shared", "fbb", "package-level writes reachable from the handshake", "fbb", bad == "",
+			"none", "the handshake code writes the package-level variable "+bad+": two sessions answering a challenge at the same moment compute their responses over a mix of both payloads (and race)")
+	}
+
+	r.Rule("C16-lines", 1, "protocol lines are cleaned of CR, LF and blanks before they are classified")
+	if fn := c.Func(pkg, "cleanString"); fn == nil {
+		r.Fail("C16-lines", "anchor cleanString not found")
+	} else {
+		ok := false
+		why := "cleanString calls neither strings.TrimSpace nor a Trim with a cutset"
+		for _, ci := range allCalls(fn) {
+			switch callName(ci.Common()) {
+			case "strings.TrimSpace":
+				ok = true
+			case "strings.Trim", "strings.TrimLeft", "strings.TrimRight":
+				if set, isC := constString(ci.Common().Args[1]); isC {
+					if strings.Contains(set, "\n") && strings.Contains(set, "\r") && strings.Contains(set, " ") {
+						ok = true
+					} else {
+						why = "the cutset " + strconvQuote(set) + " lacks CR, LF or blank"
+					}
+				}
+			}
+		}
+		r.Check("C16-lines", fnName(fn), "white space removed", c.pos(fn.Pos()), ok,
+			"leading and trailing CR, LF and blanks are removed", why+": with a peer that ends lines with CR LF every line after the first starts with LF, so ';PQ' is not recognised - no ;PR is sent, and a missing login callback goes unnoticed")
+	}
+}
+
+func strconvQuote(s string) string {
+	out := "\""
+	for _, r := range s {
+		switch r {
+		case '\n':
+			out += "\\n"
+		case '\r':
+			out += "\\r"
+		case '\t':
+			out += "\\t"
+		default:
+			out += string(r)
+		}
+	}
+	return out + "\""
+}
+
+// c17Extra4: (a) a progress value that subtracts the transport's transmit-buffer length is clamped
+// at zero before it is reported (the modem queue can hold more than has left the message buffer);
+// (b) the pending-message details attached to a proposal live in storage of their own - not in one
+// variable shared by all proposals of the block.
+func c17Extra4(c *Ctx, r *Report) {
+	const pkg = "fbb"
+	r.Rule("C17-clamp", 1, "progress values that subtract the transmit-buffer length are clamped at zero")
+	n := 0
+	for _, fn := range c.SrcFuncs(pkg) {
+		eachInstr(fn, func(_ *ssa.BasicBlock, _ int, in ssa.Instruction) {
+			st, ok := in.(*ssa.Store)
+			if !ok || !strings.HasSuffix(pathOf(st.Addr), ".BytesTransferred") {
+				return
+			}
+			usesTx := func(v ssa.Value) bool {
+				return dependsOn(v, func(x ssa.Value) bool {
+					call, ok := x.(*ssa.Call)
+					if !ok {
+						return false
+					}
+					if call.Call.IsInvoke() && call.Call.Method.Name() == "TxBufferLen" {
+						return true
+					}
+					// a local closure / helper that computes the value
+					if callee := call.Call.StaticCallee(); callee != nil && c.inModule(callee) {
+						found := false
+						eachInstr(callee, func(_ *ssa.BasicBlock, _ int, in2 ssa.Instruction) {
+							if c2, ok := in2.(*ssa.Call); ok && c2.Call.IsInvoke() && c2.Call.Method.Name() == "TxBufferLen" {
+								found = true
+							}
+						})
+						return found
+					}
+					if _, isClosureCall := call.Call.Value.(*ssa.UnOp); isClosureCall || call.Call.StaticCallee() == nil && !call.Call.IsInvoke() {
+						// call through a local function variable: look at the closures of the enclosing function
+						found := false
+						root := rootFn(fn)
+						var walk func(f *ssa.Function)
+						walk = func(f *ssa.Function) {
+							eachInstr(f, func(_ *ssa.BasicBlock, _ int, in2 ssa.Instruction) {
+								if c2, ok := in2.(*ssa.Call); ok && c2.Call.IsInvoke() && c2.Call.Method.Name() == "TxBufferLen" && f.Signature.Results().Len() == 1 {
+									found = true
+								}
+							})
+							for _, a := range f.AnonFuncs {
+								walk(a)
+							}
+						}
+						walk(root)
+						return found
+					}
+					return false
+				})
+			}
+			if !usesTx(st.Val) {
+				return
+			}
+			n++
+			clamped := false
+			v := st.Val
+			if ph, ok := v.(*ssa.Phi); ok {
+				for _, e := range ph.Edges {
+					if k, isC := constInt(e); isC && k == 0 {
+						clamped = true
+					}
+				}
+			}
+			if call, ok := v.(*ssa.Call); ok && callName(&call.Call) == "builtin.max" {
+				clamped = true
+			}
+			r.Check("C17-clamp", fnName(fn), "BytesTransferred computed from TxBufferLen", c.pos(st.Pos()), clamped,
+				"limited to zero from below before it is reported", "a report subtracts the modem's transmit-buffer length and is not clamped at zero: when the modem queue holds more than has left the message buffer (a transport with a tx buffer but no Flush, or a link lost early) BytesTransferred is negative")
+		})
+	}
+	r.Add("C17-clamp", "fbb", "reports depending on TxBufferLen", "fbb").OK("%d report value(s) examined", n)
+
+	r.Rule("C17-pending", 1, "pending-message details attached to a proposal are not shared between proposals")
+	if fn := c.Func(pkg, "(*Session).handleInbound"); fn != nil {
+		loops := naturalLoops(fn)
+		m := 0
+		eachInstr(fn, func(b *ssa.BasicBlock, _ int, in ssa.Instruction) {
+			st, ok := in.(*ssa.Store)
+			if !ok || !strings.HasSuffix(pathOf(st.Addr), ".pendingMessage") {
+				return
+			}
+			m++
+			al, isAlloc := st.Val.(*ssa.Alloc)
+			fresh := false
+			if isAlloc {
+				for _, l := range loops {
+					if l.body[b] && l.body[al.Block()] {
+						fresh = true
+					}
+				}
+				inLoop := false
+				for _, l := range loops {
+					if l.body[b] {
+						inLoop = true
+					}
+				}
+				if !inLoop {
+					fresh = true
+				}
+			}
+			r.Check("C17-pending", fnName(fn), "proposal.pendingMessage", c.pos(st.Pos()), fresh,
+				"points to a variable created in the same iteration", "every proposal of a block is given the address of one and the same variable: status reports for the first message show the pending-message details (MID, sender, subject) of the last proposal of the block")
+		})
+		if m == 0 {
+			r.Add("C17-pending", fnName(fn), "proposal.pendingMessage", c.pos(fn.Pos())).OK("no pending-message details are attached in handleInbound")
+		}
+	}
+}
+
+// c20Extra4: the value formatted with %s on the COURSE line is a string or implements
+// fmt.Stringer as it is passed (a pointer-receiver String method is not in the method set of the
+// value that Message dereferences).
+func c20Extra4(c *Ctx, r *Report) {
+	const pkg = "catalog"
+	r.Rule("C20-stringer", 1, "the course is formatted through its String method")
+	n := 0
+	for _, fn := range c.SrcFuncs(pkg) {
+		for _, ci := range callsTo(fn, false, "fmt.Fprintf", "fmt.Sprintf") {
+			fi := 0
+			if callName(ci.Common()) == "fmt.Fprintf" {
+				fi = 1
+			}
+			format, ok := constString(ci.Common().Args[fi])
+			if !ok || !strings.HasPrefix(format, "COURSE:") && !strings.Contains(format, "COURSE: %s") {
+				continue
+			}
+			args, ok := variadicArgs(ci.Common().Args[fi+1])
+			if !ok || len(args) == 0 {
+				continue
+			}
+			n++
+			mi, isMI := args[0].(*ssa.MakeInterface)
+			good := false
+			what := "?"
+			if isMI {
+				t := mi.X.Type()
+				what = t.String()
+				if isStringLike(t) {
+					good = true
+				}
+				ms := c.Prog.MethodSets.MethodSet(t)
+				for i := 0; i < ms.Len(); i++ {
+					if ms.At(i).Obj().Name() == "String" {
+						good = true
+					}
+				}
+			}
+			r.Check("C20-stringer", fnName(fn), "operand of the COURSE line", c.pos(ci.Pos()), good,
+				"a string or a value whose method set has String()", "the COURSE line formats a value of type "+what+" with %s, and that type has no String method in its method set (a pointer-receiver String is not called for a value): the line reads 'COURSE: {045 %!s(bool=false)}'")
+		}
+	}
+	if n == 0 {
+		r.Add("C20-stringer", pkg, "operand of the COURSE line", pkg).OK("no constant COURSE format with an operand found in this shape (checked by C20-optional)")
+	}
+}
